@@ -29,6 +29,41 @@ type effAnalysis struct {
 	locks   map[*ssa.Function]map[string]bool
 	callees map[*ssa.Function]map[*ssa.Function]bool
 	byName  map[string][]*ssa.Function // method name -> methods in our packages
+	// functions that sort one of their slice parameters in place (through a sort.Interface wrapper):
+	// function -> (parameter index, reported name); the effect is charged to the call sites, where it is
+	// known whether the slice is shared
+	sortsParam map[*ssa.Function]sortedParam
+}
+
+type sortedParam struct {
+	idx  int
+	name string
+}
+
+// wrappedSlice: for sort.Sort(w) with w a struct value built in this function, the slice value stored into it
+func wrappedSlice(mi *ssa.MakeInterface) ssa.Value {
+	ld, ok := mi.X.(*ssa.UnOp)
+	if !ok {
+		return nil
+	}
+	al, ok := ld.X.(*ssa.Alloc)
+	if !ok {
+		return nil
+	}
+	for _, r := range *al.Referrers() {
+		fa, ok := r.(*ssa.FieldAddr)
+		if !ok {
+			continue
+		}
+		for _, r2 := range *fa.Referrers() {
+			if st, ok := r2.(*ssa.Store); ok && st.Addr == fa {
+				if _, isSlice := st.Val.Type().Underlying().(*types.Slice); isSlice {
+					return st.Val
+				}
+			}
+		}
+	}
+	return nil
 }
 
 func typeName(t types.Type) string {
@@ -282,6 +317,13 @@ func (a *effAnalysis) analyse(fn *ssa.Function) {
 			}
 			if callee.Pkg != nil && a.ours[callee.Pkg] {
 				cs[callee] = true
+				// a callee that sorts one of its parameters in place: harmless on a slice this function made
+				a.analyse(callee)
+				if sp, ok := a.sortsParam[callee]; ok && sp.idx < len(com.Args) {
+					if !isLocalRoot(com.Args[sp.idx], 0) {
+						w[sp.name] = true
+					}
+				}
 				continue
 			}
 			// calls leaving our packages: the mutex, sort, os
@@ -302,7 +344,20 @@ func (a *effAnalysis) analyse(fn *ssa.Function) {
 				if len(com.Args) > 0 {
 					arg := com.Args[0]
 					if mi, ok := arg.(*ssa.MakeInterface); ok {
-						w["sort:"+typeName(mi.X.Type())] = true
+						name := "sort:" + typeName(mi.X.Type())
+						if sl := wrappedSlice(mi); sl != nil {
+							if prm, ok := sl.(*ssa.Parameter); ok {
+								for pi, q := range fn.Params {
+									if q == prm {
+										a.sortsParam[fn] = sortedParam{pi, name}
+									}
+								}
+							} else if !isLocalRoot(sl, 0) {
+								w[name] = true
+							}
+						} else {
+							w[name] = true
+						}
 					} else if !isLocalRoot(arg, 0) {
 						w["sort:"+locOfVal(arg)] = true
 					}
@@ -338,7 +393,7 @@ func (a *effAnalysis) closure(fn *ssa.Function) (map[string]bool, map[string]boo
 
 func effectFacts(prog *ssa.Program, sp *ssa.Package) string {
 	a := &effAnalysis{prog: prog, ours: map[*ssa.Package]bool{}, direct: map[*ssa.Function]map[string]bool{},
-		locks: map[*ssa.Function]map[string]bool{}, callees: map[*ssa.Function]map[*ssa.Function]bool{}, byName: map[string][]*ssa.Function{}}
+		locks: map[*ssa.Function]map[string]bool{}, callees: map[*ssa.Function]map[*ssa.Function]bool{}, byName: map[string][]*ssa.Function{}, sortsParam: map[*ssa.Function]sortedParam{}}
 	for _, p := range prog.AllPackages() {
 		if strings.HasPrefix(p.Pkg.Path(), root) {
 			a.ours[p] = true
